@@ -653,6 +653,29 @@ def _mips_opcodes(ctx):
             n += 1
             ctx.ob("C08.R16", rel, "`%s` has opcode %d" % (mn, MIPS_OPCODE[mn]), nums[0] == MIPS_OPCODE[mn], construct="mips-opcode:" + mn, node=c, detail="written: %d" % nums[0])
     ctx.need(n >= 25, "mips factory calls with a known mnemonic: %d found" % n)
+    # variable shifts: SLLV rd, rt, rs computes rd = rt << rs (vol. II: "SLLV rd, rt, rs"); the printed operand order has to be that one
+    mk = ctx.fn(rel, "make_r")
+    syn = [c for c in ast.walk(mk) if isinstance(c, ast.Call) and norm(c.func) == "Syntax" and c.args and isinstance(c.args[0], ast.List)]
+    orders = {}
+    for c in syn:
+        names = [norm(e) for e in c.args[0].elts if isinstance(e, ast.Name) and e.id in ("rd", "rs", "rt")]
+        guard = [a for a in _ancestors8(c, mk) if isinstance(a, ast.If)]
+        key = "shift" if guard and any(c is x for st in guard[0].body for x in ast.walk(st)) and "shift" in norm(guard[0].test) else "plain"
+        orders[key] = names
+    ctx.ob("C08.R16", rel + ":make_r", "a three-register instruction prints rd, rs, rt and a variable shift rd, rt, rs", orders.get("plain") == ["rd", "rs", "rt"] and orders.get("shift") == ["rd", "rt", "rs"], construct="mips-operand-order", detail=str(orders))
+    for mn in ("sllv", "srlv", "srav"):
+        calls = [c for c in ast.walk(ctx.project.module(rel).tree) if isinstance(c, ast.Call) and norm(c.func) == "make_r" and c.args and _tc8(c.args[0]) == mn]
+        ok = len(calls) == 1 and any(k.arg == "shift" and _tc8(k.value) is True for k in calls[0].keywords)
+        ctx.ob("C08.R16", rel, "`%s` is built with the variable-shift operand order" % mn, ok, construct="mips-shift-order:" + mn)
+
+
+def _ancestors8(n, stop):
+    out = []
+    n = getattr(n, "_parent", None)
+    while n is not None and n is not stop:
+        out.append(n)
+        n = getattr(n, "_parent", None)
+    return out
 
 
 def arm_addressing_bits(ctx, rid):
